@@ -25,19 +25,21 @@ def _adj(t, ref, md):
     return [t]
 
 
-def _ref_tier(kind, ref, lo=0):
+def _ref_tier(kind, ref, lo=0, hi=None):
+    hi = lo + 2 if hi is None else hi
     if kind == "P":
-        return PT("r", [(t, "r") for t in ref], lo, lo + 2)
+        return PT("r", [(t, "r") for t in ref], lo, hi)
     # an interval tier whose boundary times are exactly ref (pairs of consecutive times)
     ivs = [(a, b, "r") for a, b in zip(ref[0::2], ref[1::2])]
-    return IT("r", ivs, lo, lo + 2)
+    return IT("r", ivs, lo, hi)
 
 
 def _check_dejitter(case):
     kind, entries, rkind, ref, md = case[:5]
-    lo = case[5] if len(case) > 5 else 0  # the whole scene moved far from zero (sums stay exact)
-    tier = (IT if kind == "I" else PT)("t", list(entries), lo, lo + 2)
-    rt = _ref_tier(rkind, ref, lo)
+    lo = case[5] if len(case) > 5 else 0  # the whole scene moved far from zero (sums stay exact); or an explicit (lo, hi) span
+    lo, hi = lo if isinstance(lo, tuple) else (lo, lo + 2)
+    tier = (IT if kind == "I" else PT)("t", list(entries), lo, hi)
+    rt = _ref_tier(rkind, ref, lo, hi)
     times = sorted(set(rt.timestamps))
     before = canon(rt)
     st, r, _ = call(tier.dejitter, rt, md)
@@ -191,6 +193,24 @@ def parts(tier):
                     yield ("P", p, "P", ref, md)
             for ref in irefs[::3]:
                 yield ("P", p, "I", ref, 0.25)
+        # the size axis: LONG reference tiers (12 .. 258 timestamps) and receivers whose entries sit far down the reference list
+        for nref in ((12, 17, 33, 258) if quick else (11, 12, 16, 17, 33, 64, 100, 258, 300)):
+            ref = tuple(float(k) for k in range(nref))
+            span = (0.0, float(nref))
+            for k in D.probe_indices(nref - 1):
+                for e in (((k + 0.125, k + 0.875, "a"),), ((k + 0.125, k + 0.5, "a"), (k + 0.5, k + 1.125, "b")), ((0.125, 0.875, "a"), (k + 0.125, k + 0.875, "b"))):
+                    if e[-1][1] > nref or (len(e) == 2 and e[0][1] > e[1][0]):
+                        continue
+                    for md in (0.125, 0.25):
+                        yield ("I", e, "P", ref, md, span)
+                        if nref % 2 == 0:
+                            yield ("I", e, "I", ref, md, span)
+                for md in (0.125, 0.25):
+                    yield ("P", ((k + 0.125, "x"), (k + 0.875, "y")), "P", ref, md, span)
+            # a long receiver against a long reference
+            long_e = tuple((i + 0.125, i + 0.875, "w%d" % i) for i in range(nref - 1))
+            yield ("I", long_e, "P", ref, 0.25, span)
+            yield ("P", tuple((i + 0.125, "p%d" % i) for i in range(nref - 1)), "P", ref, 0.125, span)
         # the same scene at 2**40 s: maxDifference is an absolute duration, whatever the magnitude of the times
         B0 = D.BIG0
         for s in sets[::3]:
